@@ -170,6 +170,12 @@ def ncf2uamiv(ncffile, outpath):
         time_e = time_s.copy() + tincr
         date_e += (time_e // 24).astype('i')
         time_e -= (time_e // 24) * 24
+        # carry the day of year into the next two-digit year (YYJJJ)
+        yy_e, jjj_e = date_e // 1000, date_e % 1000
+        ndays_e = np.where(yy_e % 4 == 0, 366, 365)
+        date_e = np.where(jjj_e > ndays_e,
+                          (yy_e + 1) % 100 * 1000 + (jjj_e - ndays_e),
+                          date_e).astype(date_e.dtype)
     time_hdr['ibdate'] = date_s
     time_hdr['btime'] = time_s
     time_hdr['iedate'] = date_e
